@@ -243,7 +243,7 @@ def install_bc():
 
 
 # ------------------------------------------------------------------------------------------
-def install_stale(limit_dofs=1500, every=3):
+def install_stale(limit_dofs=1500, every=None):
     """Get_K_C_M_F answered without assembling (nothing flagged): the matrices handed out must be those a copy of the
     simulation, told that everything changed, assembles now from the same mesh, model, parameters and state."""
     from EasyFEA.Simulations._simu import _Simu
@@ -251,6 +251,9 @@ def install_stale(limit_dofs=1500, every=3):
     orig = _Simu.Get_K_C_M_F
     orig_assembly = _Simu.Assembly
     hits = [0]
+    if every is None:
+        # with the hostile parameter changes switched on, every answer from the cache is examined
+        every = 1 if "perturb" in os.environ.get("VERIFMON_MONITORS", "") else 3
 
     @guarded("stale")
     def look(simu, problemType, out):
@@ -273,6 +276,10 @@ def install_stale(limit_dofs=1500, every=3):
         ref = orig(twin, problemType) if problemType is not None else orig(twin)
         kind = type(simu).__name__
         for name, a, b in zip("KCMF", out, ref):
+            if simu.isNonLinear and name != "M":
+                # the tangent and the residual kept by a non-linear simulation are those of its last Newton iteration (assembled
+                # from the iterate and the state at the start of the step), not a function of the state it holds now
+                continue
             a, b = a.toarray(), b.toarray()
             if a.shape != b.shape:
                 LOG.check("C14", "cache-equals-recomputed", f"C14/suite/{kind}/{name}", np.inf, 1e-10, shapes=[list(a.shape), list(b.shape)])
@@ -290,7 +297,7 @@ def install_stale(limit_dofs=1500, every=3):
         if served_from_cache:
             hits[0] += 1
             LOG.call("cache-hits")
-            if hits[0] % every == 1:
+            if every == 1 or hits[0] % every == 1:
                 look(simu, problemType, out)
         return out
 
@@ -618,9 +625,15 @@ def install_phasefield(every=5, limit=60000):
             LOG.check("C17", "finite", k + "/finite", 0.0 if fin else np.inf, 0.0, n=int(e.shape[0] * e.shape[1]))
             if not fin:
                 return
+            Cn = np.abs(np.asarray(model.material.C)).max()
+            if kind == "stiffness":
+                C = np.asarray(model.material.C, float)
+                if C.ndim == 3:
+                    C = C[:, None]
+                LOG.check("C17", "partition-stiffness", k + "/sum", np.abs(a + b - C).max() / Cn, 1e-9)
+                return
             sig, psi = undamaged(model, e)
             want = sig if kind == "stress" else psi
-            Cn = np.abs(np.asarray(model.material.C)).max()
             en = np.sqrt(np.einsum("...i,...i->...", e, e)).max()
             sc = (Cn * en if kind == "stress" else Cn * en * en) + 1e-300
             LOG.check("C17", "partition-" + kind, k + "/sum", np.abs(a + b - want).max() / sc, 1e-9)
@@ -638,6 +651,7 @@ def install_phasefield(every=5, limit=60000):
 
     wrap("Calc_psi_e_pg", "energy")
     wrap("Calc_Sigma_e_pg", "stress")
+    wrap("Calc_C", "stiffness")
 
     prev: "weakref.WeakKeyDictionary" = weakref.WeakKeyDictionary()
     o_save, o_set = Simu.Save_Iter, Simu.Set_Iter
@@ -735,13 +749,81 @@ def install_location(max_elems=60):
     _GroupElem._Get_Mapping = _Get_Mapping
 
 
+# ------------------------------------------------------------------------------------------
+def install_perturb(prob=0.5, rel=1e-6):
+    """Not a monitor but a hostile variation of the workload, for the 'stale' monitor to judge: right before a solve, one
+    numeric parameter of the simulation's model (or of the material / elastic law / beams it is built from, or the density)
+    is re-assigned a value changed by a relative 1e-6 through its public attribute. The library must take the change into
+    account by itself; whether it did is what 'cache equals recomputed' then observes."""
+    from EasyFEA.Simulations._simu import _Simu
+    from EasyFEA.Utilities import _params
+
+    rng = np.random.default_rng(3)
+    orig = _Simu._Solver_Solve_problemType
+    NUMERIC = (_params.PositiveParameter, _params.PositiveScalarParameter, _params.ScalarParameter, _params.ScalarOrFieldParameter,
+               _params.IntervalccParameter, _params.IntervalooParameter, _params.NegativeParameter)
+
+    def candidates(simu):
+        objs = []
+        m = getattr(simu, "model", None)
+        if m is not None:
+            objs.append(m)
+            for nm in ("material", "elastic"):
+                try:
+                    sub = getattr(m, nm, None)
+                except Exception:  # noqa: BLE001
+                    sub = None
+                if sub is not None and not callable(sub):
+                    objs.append(sub)
+            try:
+                objs += list(getattr(m, "beams", []) or [])
+            except Exception:  # noqa: BLE001
+                pass
+        out = []
+        for o in objs:
+            for klass in type(o).__mro__:
+                for nm, d in vars(klass).items():
+                    if isinstance(d, NUMERIC):
+                        out.append((o, nm))
+        return out
+
+    @guarded("perturb")
+    def nudge(simu):
+        cands = candidates(simu)
+        if not cands:
+            return
+        o, nm = cands[int(rng.integers(len(cands)))]
+        try:
+            cur = getattr(o, nm)
+        except Exception:  # noqa: BLE001
+            return
+        if isinstance(cur, bool) or not isinstance(cur, (int, float, np.ndarray)):
+            return
+        if isinstance(cur, np.ndarray) and cur.dtype.kind != "f":
+            return
+        new = cur * (1.0 + rel) if np.all(np.asarray(cur) != 0) else cur
+        try:
+            setattr(o, nm, new)
+        except Exception:  # noqa: BLE001 - a value at the edge of its admissible interval: not a change the user could make either
+            return
+        LOG.call("perturbed")
+        LOG.call("perturbed:" + type(o).__name__ + "." + nm)
+
+    def solve(simu, problemType):
+        if not _inside[0] and rng.random() < prob:
+            nudge(simu)
+        return orig(simu, problemType)
+
+    _Simu._Solver_Solve_problemType = solve
+
+
 INSTALLERS = {"law": install_law, "assembly": install_assembly, "bc": install_bc, "stale": install_stale, "integrate": install_integrate,
-              "fearray": install_fearray, "timestep": install_timestep, "history": install_history, "phasefield": install_phasefield, "location": install_location}
+              "fearray": install_fearray, "timestep": install_timestep, "history": install_history, "phasefield": install_phasefield, "location": install_location, "perturb": install_perturb}
 
 
 def install(names, out_path):
     # order matters: 'stale' counts assemblies through whatever wraps Assembly before it
-    for n in ["law", "assembly", "bc", "timestep", "integrate", "fearray", "phasefield", "location", "history", "stale"]:
+    for n in ["perturb", "law", "assembly", "bc", "timestep", "integrate", "fearray", "phasefield", "location", "history", "stale"]:
         if n in names:
             try:
                 INSTALLERS[n]()
